@@ -60,6 +60,10 @@ def r1(ctx: Ctx) -> None:
     nsites = 0
     used_allow: Set[Tuple[str, str]] = set()
     for mi in ctx.program.modules.values():
+        parents: Dict[int, ast.AST] = {}
+        for node in ast.walk(mi.tree):
+            for ch in ast.iter_child_nodes(node):
+                parents[id(ch)] = node
         # imports
         for node in ast.walk(mi.tree):
             f = enc.get(id(node))
@@ -105,6 +109,9 @@ def r1(ctx: Ctx) -> None:
                 sym, why = nm, "process environment"
             elif isinstance(node.func, ast.Name) and node.func.id in BANNED_BUILTINS and node.func.id not in mi.imports:
                 sym, why = node.func.id, BANNED_BUILTINS[node.func.id]
+                par = parents.get(id(node))
+                if sym == "id" and isinstance(par, ast.Compare) and all(isinstance(o, (ast.In, ast.NotIn, ast.Eq, ast.NotEq, ast.Is, ast.IsNot)) for o in par.ops):
+                    sym = None  # identity test: the address is compared for equality only, its value never matters
             elif isinstance(node.func, ast.Name) and node.func.id in DYNAMIC:
                 sym, why = node.func.id, "dynamic code / namespace access"
             elif isinstance(node.func, ast.Name) and node.func.id == "open":
@@ -282,6 +289,29 @@ def r3(ctx: Ctx) -> None:
                     first_iter = [c for c in ast.walk(f.node) if isinstance(c, (ast.For, ast.comprehension)) and isinstance(c.iter, ast.Name) and c.iter.id == name]
                     if sorts and all(s.lineno <= i.iter.lineno for s in sorts[:1] for i in first_iter):
                         ok, how = True, f"list sorted in place ({name}.sort) before any iteration"
+            if not ok and f is not None and isinstance(par, (ast.Assign, ast.AnnAssign)) and par.value is node:
+                tg = par.targets[0] if isinstance(par, ast.Assign) and len(par.targets) == 1 else (par.target if isinstance(par, ast.AnnAssign) else None)
+                if isinstance(tg, ast.Name):
+                    uses = [u for u in ast.walk(f.node) if isinstance(u, ast.Name) and u.id == tg.id and u is not tg]
+                    rebound = [u for u in uses if isinstance(u.ctx, ast.Store)]
+                    bad_use = []
+                    for u in uses:
+                        if isinstance(u.ctx, ast.Store):
+                            continue
+                        up = parents.get(id(u))
+                        if isinstance(up, ast.Compare) and u in up.comparators and all(isinstance(o, (ast.In, ast.NotIn, ast.Eq, ast.NotEq)) for o in up.ops):
+                            continue
+                        if isinstance(up, ast.Attribute) and up.attr in ("add", "discard", "remove", "update", "clear", "__contains__", "issubset", "issuperset", "isdisjoint") and isinstance(parents.get(id(up)), ast.Call):
+                            continue
+                        if isinstance(up, ast.Call) and isinstance(up.func, ast.Name) and up.func.id in _ORDER_FREE_CONSUMERS and u in up.args:
+                            continue
+                        bad_use.append(u)
+                    if not rebound and not bad_use:
+                        ok, how = True, f"bound to {tg.id}, used only for membership / size"
+                if not ok and isinstance(par, ast.AnnAssign):
+                    ann = ast.unparse(par.annotation)
+                    if ann.replace("typing.", "") in ("Set[int]", "Set[float]", "set[int]", "set[float]", "FrozenSet[int]"):
+                        ok, how = True, "elements are numbers by annotation (hash independent of PYTHONHASHSEED)"
             if not ok and f is not None:
                 # hash-stable element types (int/float/bool): iteration order does not depend on the hash seed
                 env = ctx.cg.env(f)
